@@ -376,6 +376,9 @@ type cfgCase struct {
 	seq   int
 	cur   *cfgFile // last configuration expected to be serving (nil: none)
 	lastPath, lastOp string
+	held             []io.Closer   // foreign sockets occupying an address for the duration of one load
+	failedAddrs      []cfgListener // addresses whose bind failed earlier: later configurations reuse them
+	retry, revert    *cfgFile      // after a bind that failed because of a foreign socket: the same file again, then back
 	saltN uint64
 	dead  bool
 }
@@ -438,7 +441,21 @@ func (c *cfgCase) genFresh() *cfgFile {
 		}
 		f.Services = append(f.Services, s)
 	}
-	if r.Chance(45) || ns == 0 {
+	if r.Chance(12) {
+		// a long legacy list: many keys, ports interleaved, pairs of entries with the same cipher and
+		// secret under different ids on the same port (the first listed id must win)
+		nk := 13 + r.Intn(30)
+		ports := cfgLegacyPorts[:2+r.Intn(2)]
+		for j := 0; j < nk; j++ {
+			k := cfgKey{ID: fmt.Sprintf("u%d", j), Cipher: Pick(r, cipherAliases[specCiphers[r.Intn(2)].name]), Secret: fmt.Sprintf("pw%d", r.Intn(nk))}
+			p := Pick(r, ports)
+			if j > 0 && r.Chance(35) {
+				o := f.Keys[r.Intn(len(f.Keys))]
+				k.Cipher, k.Secret, p = o.Cipher, o.Secret, o.Port
+			}
+			f.Keys = append(f.Keys, cfgLegacyKey{k, p})
+		}
+	} else if r.Chance(45) || ns == 0 {
 		nk := 1 + r.Intn(4)
 		for j := 0; j < nk; j++ {
 			k := c.genKey()
@@ -488,6 +505,9 @@ func (c *cfgCase) genFrom(old *cfgFile) *cfgFile {
 			if len(f.Services) > 0 {
 				s := &f.Services[r.Intn(len(f.Services))]
 				l := cfgListener{Type: Pick(r, []string{"tcp", "udp"}), Address: Pick(r, cfgGoodAddrs), ipOK: true}
+				if len(c.failedAddrs) > 0 && r.Chance(60) {
+					l = Pick(r, c.failedAddrs)
+				}
 				if !used[l.lkey()] {
 					used[l.lkey()] = true
 					s.Listeners = append(s.Listeners, l)
@@ -574,7 +594,7 @@ func (c *cfgCase) injectFault(f *cfgFile) cfgFault {
 		s.Listeners = append(s.Listeners[:li], append([]cfgListener{l}, s.Listeners[li:]...)...)
 		return si, li
 	}
-	switch r.Intn(11) {
+	switch r.Intn(14) {
 	case 0:
 		return cfgFault{"missing", "read"}
 	case 1:
@@ -613,7 +633,36 @@ func (c *cfgCase) injectFault(f *cfgFile) cfgFault {
 	case 8:
 		si, li := insert(cfgListener{Type: Pick(r, []string{"tcp", "udp"}), Address: Pick(r, cfgUnassigned), ipOK: true})
 		return cfgFault{"bind", fmt.Sprintf("bind:%d", planIndex(f, si, li))}
-	case 9:
+	case 9, 11, 12, 13:
+		// an address another process holds for the moment: the bind fails now and may succeed later
+		l := cfgListener{Type: Pick(r, []string{"tcp", "udp"}), Address: Pick(r, cfgGoodAddrs), ipOK: true}
+		inUse := false
+		if c.cur != nil {
+			_, owned := c.cur.owned()
+			_, inUse = owned[l.lkey()]
+		}
+		for _, s := range f.Services {
+			for _, x := range s.Listeners {
+				if x.lkey() == l.lkey() {
+					inUse = true
+				}
+			}
+		}
+		if !inUse {
+			var h io.Closer
+			var err error
+			if l.Type == "tcp" {
+				h, err = net.Listen("tcp", l.Address)
+			} else {
+				h, err = net.ListenPacket("udp", l.Address)
+			}
+			if err == nil {
+				c.held = append(c.held, h)
+				c.failedAddrs = append(c.failedAddrs, l)
+				si, li := insert(l)
+				return cfgFault{"foreign-temporary", fmt.Sprintf("bind:%d", planIndex(f, si, li))}
+			}
+		}
 		si, li := insert(cfgListener{Type: Pick(r, []string{"tcp", "udp"}), Address: cfgForeign, ipOK: true})
 		return cfgFault{"foreign", fmt.Sprintf("bind:%d", planIndex(f, si, li))}
 	default:
@@ -701,6 +750,38 @@ func (c *cfgCase) freshSalt(n int) []byte {
 	return s
 }
 
+// Every client socket gets a local port of its own from a private range below the kernel's ephemeral
+// range: the metric events identify a client by its address, and an ephemeral port that the kernel
+// hands out twice within one observation window would merge two clients into one.
+var cfgLocalPort uint32 = 10000
+
+func nextLocalPort() int {
+	p := atomic.AddUint32(&cfgLocalPort, 1)
+	return 10000 + int(p%22000)
+}
+
+func dialFrom(network, addr string) (net.Conn, error) {
+	var err error
+	for try := 0; try < 20; try++ {
+		var d net.Dialer
+		d.Timeout = 2 * time.Second
+		if network == "tcp" {
+			d.LocalAddr = &net.TCPAddr{Port: nextLocalPort()}
+		} else {
+			d.LocalAddr = &net.UDPAddr{Port: nextLocalPort()}
+		}
+		var c net.Conn
+		c, err = d.Dial(network, addr)
+		if err == nil {
+			return c, nil
+		}
+		if !strings.Contains(err.Error(), "address already in use") {
+			return nil, err
+		}
+	}
+	return nil, err
+}
+
 type tcpProbeRes struct {
 	refused bool
 	local   string
@@ -710,7 +791,7 @@ type tcpProbeRes struct {
 
 // probeTCP: one Shadowsocks TCP client: handshake + address header + token, FIN, read to EOF
 func (c *cfgCase) probeTCP(addr string, key *specKey, salt []byte, token string, port int) tcpProbeRes {
-	conn, err := net.DialTimeout("tcp", dialAddr(addr), 2*time.Second)
+	conn, err := dialFrom("tcp", dialAddr(addr))
 	if err != nil {
 		return tcpProbeRes{refused: true, err: err}
 	}
@@ -792,7 +873,7 @@ func (c *cfgCase) authTCP(addr string, key *specKey) (string, bool, bool) {
 
 // authUDP: same over UDP
 func (c *cfgCase) authUDP(addr string, key *specKey) (string, bool) {
-	conn, err := net.Dial("udp", dialAddr(addr))
+	conn, err := dialFrom("udp", dialAddr(addr))
 	if err != nil {
 		return "", false
 	}
@@ -977,8 +1058,24 @@ func (c *cfgCase) probeAll(pool []clientKey) {
 			i := r.Intn(len(keys))
 			keys = append(keys[:i], keys[i+1:]...)
 		}
+		// keys listed more than once are the interesting ones: keep them, thin out the rest
+		cnt := map[clientKey]int{}
+		for _, ck := range mine {
+			cnt[ck]++
+		}
+		sort.SliceStable(mine, func(a, b int) bool { return cnt[mine[a]] > 1 && cnt[mine[b]] <= 1 })
+		ndup := 0
+		for _, ck := range mine {
+			if cnt[ck] > 1 {
+				ndup++
+			}
+		}
 		for len(mine) > 4 {
-			i := r.Intn(len(mine))
+			lo := 0
+			if ndup >= 2 && len(mine) > ndup {
+				lo = min(ndup, 3) // drop singles first, keep up to 3 duplicated
+			}
+			i := lo + r.Intn(len(mine)-lo)
 			mine = append(mine[:i], mine[i+1:]...)
 		}
 		seen := map[clientKey]bool{}
@@ -1031,11 +1128,12 @@ type hammer struct {
 }
 
 func (c *cfgCase) startHammer(lk string, ck clientKey) *hammer {
+	c.events() // what earlier traffic left behind is not the hammer's
 	h := &hammer{stop: make(chan struct{})}
 	i := strings.IndexByte(lk, '/')
 	proto, addr := lk[:i], lk[i+1:]
 	sk := newSpecKey(specCiphers[ck.cipher].name, ck.secret)
-	workers := 3
+	workers := 4
 	for w := 0; w < workers; w++ {
 		h.wg.Add(1)
 		seed := c.r.U64()
@@ -1059,7 +1157,7 @@ func (c *cfgCase) startHammer(lk string, ck clientKey) *hammer {
 					}
 					h.tcpConns.Store(res.local, string(res.echo) == token+"|tail")
 				} else {
-					conn, err := net.Dial("udp", dialAddr(addr))
+					conn, err := dialFrom("udp", dialAddr(addr))
 					if err != nil {
 						continue
 					}
@@ -1094,7 +1192,7 @@ type relay struct {
 func (c *cfgCase) openRelay(lk string, ck clientKey, mode string) *relay {
 	addr := lk[strings.IndexByte(lk, '/')+1:]
 	sk := newSpecKey(specCiphers[ck.cipher].name, ck.secret)
-	conn, err := net.DialTimeout("tcp", dialAddr(addr), 2*time.Second)
+	conn, err := dialFrom("tcp", dialAddr(addr))
 	if err != nil {
 		return nil
 	}
@@ -1223,13 +1321,26 @@ func retainedPairs(old, next *cfgFile) (pairs [][2]any) {
 func (c *cfgCase) step(first bool) {
 	r := c.r
 	var next *cfgFile
-	if c.cur != nil && r.Chance(65) {
+	scripted := false
+	switch {
+	case c.retry != nil && r.Chance(75): // the operator tries the same file again once the other process is gone
+		next, c.retry, scripted = c.retry, nil, true
+	case c.revert != nil && c.retry == nil && r.Chance(60): // ... and later goes back to what was serving before
+		next, c.revert, scripted = c.revert, nil, true
+	case c.cur != nil && r.Chance(65):
 		next = c.genFrom(c.cur)
-	} else {
+	default:
 		next = c.genFresh()
 	}
 	clean := next.clone()
-	ft := c.injectFault(next)
+	ft := cfgFault{"none", "none"}
+	if !scripted {
+		ft = c.injectFault(next)
+		c.retry, c.revert = nil, nil
+		if ft.kind == "foreign-temporary" && c.cur != nil {
+			c.retry, c.revert = next.clone(), c.cur.clone()
+		}
+	}
 	path := c.writeFile(next, ft)
 	c.out.Stat("fault."+ft.kind, 1)
 
@@ -1286,6 +1397,10 @@ func (c *cfgCase) step(first bool) {
 		c.out.Oracle("*", "the server process died or hung during %s of %s (%s): %v: %s", cmd, filepath.Base(path), ft.kind, err, tailStr(c.d.stderr.String(), 1500))
 		return
 	}
+	for _, h := range c.held {
+		h.Close()
+	}
+	c.held = nil
 	ok := ans == "ok"
 	res := "err"
 	if ok {
@@ -1304,100 +1419,7 @@ func (c *cfgCase) step(first bool) {
 
 	if hm != nil {
 		time.Sleep(time.Duration(2+r.Intn(8)) * time.Millisecond)
-		close(hm.stop)
-		hm.wg.Wait()
-		// every hammer connection: opened once, authenticated
-		evs := c.events()
-		deadline := time.Now().Add(2 * time.Second)
-		unauth, dup, total, unechoed, lost, utotal, unanswered, dialAborted := 0, 0, 0, 0, 0, 0, 0, 0
-		for {
-			opens := map[string]int{}
-			auths := map[string]int{}
-			uadds := map[string]int{}
-			status := map[string]string{}
-			for _, e := range evs {
-				if e.kind == "tcpclosed" {
-					status[e.remote] = e.arg
-				}
-				if e.kind == "tcpopen" {
-					opens[e.remote]++
-				}
-				if e.kind == "tcpauth" {
-					auths[e.remote]++
-				}
-				if e.kind == "udpadd" {
-					uadds[e.remote]++
-				}
-			}
-			unauth, dup, total, unechoed, lost, utotal, unanswered, dialAborted = 0, 0, 0, 0, 0, 0, 0, 0
-			missing := 0
-			hm.udpConns.Range(func(k, v any) bool {
-				utotal++
-				switch n := uadds[k.(string)]; {
-				case n == 0:
-					lost++
-					missing++
-				case n > 1:
-					dup++
-				}
-				if !v.(bool) {
-					unanswered++
-				}
-				return true
-			})
-			hm.tcpConns.Range(func(k, v any) bool {
-				total++
-				if opens[k.(string)] == 0 {
-					missing++
-				} else if opens[k.(string)] > 1 {
-					dup++
-				}
-				if auths[k.(string)] == 0 {
-					unauth++
-				}
-				// A connection that authenticated and was still DIALLING its target when the old
-				// generation stopped is aborted (StreamServe cancels the handlers' context when its
-				// listener closes; the context only governs the dial).  C11 speaks of connections
-				// that are refused, unauthenticated, or already relaying: this one is none of those,
-				// so it is counted apart and not held against the property.
-				if !v.(bool) && status[k.(string)] == "ERR_CONNECT" && auths[k.(string)] > 0 {
-					dialAborted++
-				} else if !v.(bool) {
-					unechoed++
-				}
-				return true
-			})
-			if (missing == 0 && unauth == 0) || time.Now().After(deadline) || c.dead {
-				break
-			}
-			time.Sleep(5 * time.Millisecond)
-			evs = append(evs, c.events()...)
-		}
-		c.out.Op("cfg hammer", fmt.Sprintf("refused=%d unauth=%d lost=%d dup=%d # lk=%s tcp=%d udp=%d unanswered=%d fault=%s", hm.refused, unauth+unechoed, lost, dup, hmLK, total, utotal, unanswered, ft.kind))
-		c.out.Stat("hammer.udp.unanswered", unanswered)
-		c.out.Stat("hammer.tcp.dial-aborted-by-reload", dialAborted)
-		c.out.Stat("hammer.ops", int(hm.n))
-		if hm.refused > 0 {
-			c.out.Oracle("C11", "%d connection attempts to the retained address %s were refused during a reload (%s)", hm.refused, hmLK, ft.kind)
-		}
-		if unauth+unechoed > 0 {
-			hm.tcpConns.Range(func(k, v any) bool {
-				var mine []string
-				for _, e := range evs {
-					if e.remote == k.(string) {
-						mine = append(mine, e.kind+":"+e.arg)
-					}
-				}
-				if !v.(bool) || !strings.Contains(strings.Join(mine, " "), "tcpauth") {
-					c.out.Note("unserved hammer connection %s echoed=%v events=%v", k, v, mine)
-				}
-				return true
-			})
-			c.out.Oracle("C11", "%d of %d connections to the retained address %s with a key present in both configurations were not served during a reload (%s)", unauth+unechoed, total, hmLK, ft.kind)
-		}
-		if lost > 0 || dup > 0 {
-			c.out.Oracle("C11", "retained address %s during a reload (%s): %d datagrams handled by no generation, %d connections or datagrams handled twice", hmLK, ft.kind, lost, dup)
-		}
+		c.finishHammer(hm, hmLK, ft.kind)
 	}
 
 	c.opBound()
@@ -1439,6 +1461,161 @@ func settleGoroutines(d *cfgDriver, want int) int {
 			return g
 		}
 		time.Sleep(60 * time.Millisecond)
+	}
+}
+
+// finishHammer stops the clients and holds what they saw against the metric events of the server
+func (c *cfgCase) finishHammer(hm *hammer, hmLK string, kind string) {
+	close(hm.stop)
+	hm.wg.Wait()
+	// every hammer connection: opened once, authenticated
+	evs := c.events()
+	deadline := time.Now().Add(2 * time.Second)
+	unauth, dup, total, unechoed, lost, utotal, unanswered, dialAborted := 0, 0, 0, 0, 0, 0, 0, 0
+	for {
+		opens := map[string]int{}
+		auths := map[string]int{}
+		uadds := map[string]int{}
+		status := map[string]string{}
+		for _, e := range evs {
+			if e.kind == "tcpclosed" {
+				status[e.remote] = e.arg
+			}
+			if e.kind == "tcpopen" {
+				opens[e.remote]++
+			}
+			if e.kind == "tcpauth" {
+				auths[e.remote]++
+			}
+			if e.kind == "udpadd" {
+				uadds[e.remote]++
+			}
+		}
+		unauth, dup, total, unechoed, lost, utotal, unanswered, dialAborted = 0, 0, 0, 0, 0, 0, 0, 0
+		missing := 0
+		hm.udpConns.Range(func(k, v any) bool {
+			utotal++
+			switch n := uadds[k.(string)]; {
+			case n == 0:
+				lost++
+				missing++
+			case n > 1:
+				dup++
+			}
+			if !v.(bool) {
+				unanswered++
+			}
+			return true
+		})
+		hm.tcpConns.Range(func(k, v any) bool {
+			total++
+			if opens[k.(string)] == 0 {
+				missing++
+			} else if opens[k.(string)] > 1 {
+				dup++
+			}
+			if auths[k.(string)] == 0 {
+				unauth++
+			}
+			// A connection that authenticated and was still DIALLING its target when the old
+			// generation stopped is aborted (StreamServe cancels the handlers' context when its
+			// listener closes; the context only governs the dial).  C11 speaks of connections
+			// that are refused, unauthenticated, or already relaying: this one is none of those,
+			// so it is counted apart and not held against the property.
+			if !v.(bool) && status[k.(string)] == "ERR_CONNECT" && auths[k.(string)] > 0 {
+				dialAborted++
+			} else if !v.(bool) {
+				unechoed++
+			}
+			return true
+		})
+		if (missing == 0 && unauth == 0) || time.Now().After(deadline) || c.dead {
+			break
+		}
+		time.Sleep(5 * time.Millisecond)
+		evs = append(evs, c.events()...)
+	}
+	c.out.Op("cfg hammer", fmt.Sprintf("refused=%d unauth=%d lost=%d dup=%d # lk=%s tcp=%d udp=%d unanswered=%d fault=%s", hm.refused, unauth+unechoed, lost, dup, hmLK, total, utotal, unanswered, kind))
+	c.out.Stat("hammer.udp.unanswered", unanswered)
+	c.out.Stat("hammer.tcp.dial-aborted-by-reload", dialAborted)
+	c.out.Stat("hammer.ops", int(hm.n))
+	if hm.refused > 0 {
+		c.out.Oracle("C11", "%d connection attempts to the retained address %s were refused during a reload (%s)", hm.refused, hmLK, kind)
+	}
+	if unauth+unechoed > 0 {
+		hm.tcpConns.Range(func(k, v any) bool {
+			var mine []string
+			for _, e := range evs {
+				if e.remote == k.(string) {
+					mine = append(mine, e.kind+":"+e.arg)
+				}
+			}
+			if !v.(bool) || !strings.Contains(strings.Join(mine, " "), "tcpauth") {
+				c.out.Note("unserved hammer connection %s echoed=%v events=%v", k, v, mine)
+			}
+			return true
+		})
+		c.out.Oracle("C11", "%d of %d connections to the retained address %s with a key present in both configurations were not served during a reload (%s)", unauth+unechoed, total, hmLK, kind)
+	}
+	if lost > 0 || dup > 0 {
+		c.out.Oracle("C11", "retained address %s during a reload (%s): %d datagrams handled by no generation, %d connections or datagrams handled twice", hmLK, kind, lost, dup)
+	}
+}
+
+// storm: many consecutive reloads, alternating between two configurations that both keep one
+// (listener, key) pair, while clients hammer that listener
+func (c *cfgCase) storm() {
+	r := c.r
+	ps := retainedPairs(c.cur, c.cur)
+	if len(ps) == 0 || c.dead {
+		return
+	}
+	p := Pick(r, ps)
+	lk, ck := p[0].(string), p[1].(clientKey)
+	keeps := func(f *cfgFile) bool {
+		for _, q := range retainedPairs(c.cur, f) {
+			if q[0].(string) == lk && q[1].(clientKey) == ck {
+				return true
+			}
+		}
+		return false
+	}
+	alt := c.cur.clone()
+	for try := 0; try < 6; try++ {
+		if f := c.genFrom(c.cur); keeps(f) {
+			alt = f
+			break
+		}
+	}
+	cfgs := []*cfgFile{alt, c.cur}
+	paths := []string{c.writeFile(alt, cfgFault{"none", "none"}), c.writeFile(c.cur, cfgFault{"none", "none"})}
+	hm := c.startHammer(lk, ck)
+	k := 8 + r.Intn(30)
+	for i := 0; i < k && !c.dead; i++ {
+		ans, err := c.d.call("load %s", paths[i%2])
+		if err != nil {
+			c.dead = true
+			c.out.Oracle("*", "the server process died or hung during consecutive reloads: %v: %s", err, tailStr(c.d.stderr.String(), 1500))
+			break
+		}
+		res := "err"
+		if ans == "ok" {
+			res = "ok"
+			c.cur = cfgs[i%2]
+		} else {
+			c.out.Oracle("C10", "reloading a valid configuration during consecutive reloads answered %q", ans)
+		}
+		c.lastPath, c.lastOp = paths[i%2], "cfg load fault=none "+c.modelFields(cfgs[i%2])
+		c.out.Op(c.lastOp, res+" # storm "+ans)
+		if r.Chance(30) {
+			time.Sleep(time.Duration(r.Intn(3)) * time.Millisecond)
+		}
+	}
+	c.out.Stat("storm.reloads", k)
+	if !c.dead {
+		c.finishHammer(hm, lk, "consecutive-reloads")
+		c.opBound()
+		c.probeAll(c.keyPool(c.cur, alt))
 	}
 }
 
@@ -1496,7 +1673,18 @@ func configEngine(rng *Rng, n int, out *Out, args map[string]string) {
 		started := false
 		steps := 3 + c.r.Intn(5)
 		for s := 0; s < steps && !c.dead; s++ {
+			t0 := time.Now()
+			if started && c.cur != nil && c.r.Chance(25) {
+				c.storm()
+				if args["timing"] == "1" {
+					out.Note("storm took %v", time.Since(t0))
+				}
+				continue
+			}
 			c.step(!started)
+			if args["timing"] == "1" {
+				out.Note("step took %v", time.Since(t0))
+			}
 			if c.cur != nil && !started {
 				started = true
 				// baseline for the leak check: stop once, count the goroutines of the idle process
@@ -1542,6 +1730,11 @@ func configEngine(rng *Rng, n int, out *Out, args map[string]string) {
 			out.Oracle("*", "the server process crashed: %s", tailStr(d.stderr.String(), 2000))
 		}
 		d.quit()
+		if args["stderr"] != "" {
+			f, _ := os.OpenFile(args["stderr"], os.O_APPEND|os.O_CREATE|os.O_WRONLY, 0o644)
+			f.Write(d.stderr.Bytes())
+			f.Close()
+		}
 		out.Stat("case", 1)
 	}
 }
